@@ -90,8 +90,11 @@ HasAlt(t) ==
 
 \* getpath(path(p)) reproduces p  (C02), whenever path(p) is defined; `f // g` is excluded here:
 \* its paths are those of `if first(f // false) then f else g end` (manual), which is what Ev implements
+RECURSIVE HasTry(_)
+HasTry(t) == t.k = "try" \/ LET st == SubTerms(t) IN \E i \in 1..Len(st) : HasTry(st[i])
+\* ... and so is `try`: it turns "not a path expression" (an error of path mode only) into fewer paths
 PathsAgree ==
-  HasAlt(prog) \/
+  HasAlt(prog) \/ HasTry(prog) \/
   LET ps == RunProgF(TC1("path", prog), input, FuelN)
       gs == RunProgF(TC1("getpath", TC1("path", prog)), input, FuelN)
       vs == RunProgF(prog, input, FuelN)
